@@ -81,4 +81,12 @@ PROPS = {
   'explanation': 'C13_tile_map_preserved and C13_verifies hold for every well-formed archive, dedup on and off; the cluster model is compared field-for-field, entry-for-entry and byte-for-byte '
                  '(tile data) with the real Cluster, and the oracle re-checks content map, declarations, metadata, structure and pmtiles.Verify on the output.',
  },
+ 'C15': {
+  'rule': 'valid archives written by the harness (2..13 entries, runs, shared offsets, clustered and unordered layouts, 0..2 leaf levels, gzip/none, plain and 16 KiB-padded layouts) '
+          'and every single-field / single-entry corruption of each: addressed/entries/contents +-1, min/max/center zoom, degenerate bounds, data/metadata length +-1, each section offset set to 0, '
+          'file truncated/extended, clustered flag on an unordered archive, an entry moved outside the tile data, an entry shifted backwards to an unused offset. All cases non-trivial; distinct by case line',
+  'trusted_base': [GZIP, 'roaring64 bitmap modelled as a duplicate-free list of offsets', 'the local-file bucket and os.Stat (file size)'],
+  'assumptions': ['directories are readable (the harness writes them); archives have at least one entry'],
+  'explanation': 'The verify model is compared with pmtiles.Verify on every valid archive and every corruption; the oracle knows by construction which files are consistent.',
+ },
 }
